@@ -27,6 +27,7 @@ def hostOf (beh : String) (id : Option Ident) (g : Option Caps) : Option Host :=
   | "configRefused" => some { ok with config := .refused }
   | "stallCaps" => some { ok with caps := .stall }
   | "capsRefused" => some { ok with caps := .refused }
+  | "byeRefused" => some { ok with bye := .refused }
   | "slowAll" => some { ok with hello := .slow, version := .slow, config := .slow, caps := .slow, bye := .slow }
   | _ => none
 
@@ -78,6 +79,13 @@ def handleC17 : Handler := fun args =>
       | some e => if e ≤ bound then "accept" else s!"reject bound={bound}ms"
       | none => s!"reject bound={bound}ms"
     | _, _ => "bad-op"
+  | ["probe-busy-check", elapsed] =>
+    -- a host that keeps the connection busy without answering: the probe ends with the exchange's own deadline
+    -- (`context.WithTimeout(_, sendTimeout)`, C17.probe_limits), not before, and not much later
+    let bound := Gen.drv_sendTimeout / 1000000 + 4 * slackMs
+    match elapsed.toNat? with
+    | some e => if e ≤ bound then "accept" else s!"reject bound={bound}ms"
+    | none => s!"reject bound={bound}ms elapsed={elapsed}"
   | ["probe-stages"] => toString probeStages
   | _ => none
 
